@@ -155,5 +155,7 @@ def init(table, reload=False):
         return
     table.properties.append('crystal_structure')
 
+    # Note: each table gets its own copy so that changes to one table do
+    # not show up in the others.
     for Z, struct in enumerate(crystal_structures):
-        table[Z].crystal_structure = struct
+        table[Z].crystal_structure = dict(struct) if struct is not None else None
